@@ -231,10 +231,10 @@ pub fn sectors(src: &[u8]) -> Vec<Span> {
     (0..src.len()).step_by(16).map(|s| Span(s, (s + 16).min(src.len()))).collect()
 }
 
-pub const SINGLE_KINDS: [&str; 19] = [
+pub const SINGLE_KINDS: [&str; 20] = [
     "eof", "torn_tail", "lost_token", "lost_line", "lost_sector", "dup_token", "dup_line", "swap_tokens", "swap_lines",
     "bit_flip", "byte_subst", "crlf", "token_subst", "token_insert", "own_subst", "line_insert", "splice_eol",
-    "literal_boundary", "nest",
+    "literal_boundary", "nest", "bank_boundary",
 ];
 
 /// Wrappers an operand is nested in by the "nest" kind ({F} = a function name of the program), and the depths.
@@ -259,6 +259,23 @@ pub fn callable_name(src: &[u8]) -> Option<String> {
         }
     }
     None
+}
+
+/// Bank numbers a `bankN` token is retyped as (limits of the bankswitching schemes, of a byte, of 16 and 32 bits);
+/// the enumeration pairs each with every scheme of the reference builder (see gen::c16_enum_world).
+pub const BANKS: [&str; 12] =
+    ["bank0", "bank1", "bank2", "bank7", "bank8", "bank9", "bank255", "bank256", "bank257", "bank65536", "bank65537", "bank4294967295"];
+pub const BANK_SCHEMES: usize = 5;
+
+/// spans of the `bank<digits>` tokens of a program
+pub fn bank_tokens(src: &[u8]) -> Vec<Span> {
+    tokens(src)
+        .into_iter()
+        .filter(|t| {
+            let w = &src[t.0..t.1];
+            w.len() > 4 && w.starts_with(b"bank") && w[4..].iter().all(|c| c.is_ascii_digit())
+        })
+        .collect()
 }
 
 /// Values an integer literal is retyped as (range boundaries of char, short, i32 and beyond).
@@ -327,6 +344,7 @@ pub fn space(kind: &str, src: &[u8]) -> usize {
         "splice_eol" => line_ends(src).len(),
         "literal_boundary" => int_tokens(src).len() * BOUNDARY.len(),
         "nest" => int_tokens(src).len() * NEST_WRAPPERS.len() * NEST_DEPTHS.len(),
+        "bank_boundary" => bank_tokens(src).len() * BANKS.len() * BANK_SCHEMES,
         _ => 0,
     }
 }
@@ -386,6 +404,11 @@ pub fn nth(kind: &str, src: &[u8], idx: usize) -> SrcFault {
             } else {
                 SrcFault::InsertRaw(e, "\\".to_string())
             }
+        }
+        "bank_boundary" => {
+            let per = BANKS.len() * BANK_SCHEMES;
+            let t = bank_tokens(src)[idx / per];
+            SrcFault::TokenSubst(t.0, t.1, BANKS[(idx % per) / BANK_SCHEMES].to_string())
         }
         "nest" => {
             let per = NEST_WRAPPERS.len() * NEST_DEPTHS.len();
